@@ -77,7 +77,8 @@ func run() error {
 		if err != nil {
 			return err
 		}
-		_, args, err := args.Get()
+		// The optional path is the positional argument (before any "--")
+		args, _, err := args.Get()
 		if err != nil {
 			return err
 		}
